@@ -59,6 +59,8 @@ FIRST_MISSED = {
 RETIRED = {
     'C17_m1': 'retired: fix c7f569c (F17.7) rewrote Hdf5Loader.load_tuple - the temporary list is no longer memorised, so the '
               'changed line does not exist any more and the mutation has no equivalent on the current tree',
+    'C19_n1': 'retired: fix 4a35382 (F19.5) replaced the ring-count formula of Lattice.mps2lat_values_masked that the change edited by '
+              'sizing the axis from the actual lattice indices; the changed line does not exist any more',
     'C18_m2': 'retired: fix 3811351 (F18.1-3, sweep_stats kept in the resume data) changed DMRGEngine.reset_stats and the '
               'contents of results[sweep_stats] after a resume, which demo.py relied on; the patch context no longer matches',
 }
